@@ -44,9 +44,10 @@ Definition S1 := Eval vm_compute in single_section gen_traces.
 Definition T1 := Eval vm_compute in tables_covered gen_guards gen_traces.
 Definition O1 := Eval vm_compute in once_guard_ok gen_build_stmts gen_build_recv gen_once_field_type gen_build_refs.
 Definition I1 := Eval vm_compute in iterate_ok gen_iterate_stmts gen_buildfunction_calls.
+Definition K1 := Eval vm_compute in task_source_diff gen_task_source.
 Definition B1 := Eval vm_compute in gen_build_stmts.
 Definition J1 := Eval vm_compute in gen_iterate_stmts.
-Print U. Print S1. Print T1. Print O1. Print I1. Print B1. Print J1.
+Print U. Print S1. Print T1. Print O1. Print I1. Print B1. Print J1. Print K1.
 """
     rc, o2 = ck.coq_cases("obligations", text)
     why = []
@@ -56,6 +57,9 @@ Print U. Print S1. Print T1. Print O1. Print I1. Print B1. Print J1.
     for nm, label in (("S1", "single_section"), ("T1", "tables_covered"), ("O1", "once_guard_shape"), ("I1", "iterate_shape")):
         if ck.printed_value(o2, nm) == "false":
             why.append(label + " = false")
+    K1 = ck.printed_value(o2, "K1")
+    if K1 not in (None, "[]"):
+        why.append("task_shape fails: go/ir/task.go no longer reads as the text the model transcribes, in " + K1)
     if ck.printed_value(o2, "O1") == "false":
         why.append("Package.Build body is now " + str(ck.printed_value(o2, "B1")))
     if ck.printed_value(o2, "I1") == "false":
@@ -73,7 +77,7 @@ res = os.path.join(work, "out.json")
 # built from syntax, their dependencies from export data
 REPO_PKGS = "./analysis/dfa/...,./internal/xtools-internal/graph/...,./internal/iterutil,./go/types/typeutil"
 if ck.thorough():
-    params = ["-progs", "8", "-reps", "3", "-modes", "4",
+    params = ["-progs", "6", "-reps", "2", "-modes", "4",
               "-scenarios", "serial:4,parallel:1,parallel:2,parallel:4,parallel:16,concurrent:16,concurrent:2,concurrent:4",
               "-repopkgs", REPO_PKGS, "-timeout", "1800s"]
     race_runs = [("concurrent:16", "3", "2"), ("parallel:4", "3", "2"), ("concurrent:2", "2", "2"), ("parallel:16", "2", "1")]
@@ -81,7 +85,7 @@ else:
     params = ["-progs", "2", "-reps", "1", "-modes", "2",
               "-scenarios", "serial:4,parallel:1,parallel:2,parallel:4,parallel:16,concurrent:16",
               "-repopkgs", REPO_PKGS, "-reposcen", "serial:4,concurrent:16", "-timeout", "600s"]
-    race_runs = [("concurrent:16", "1", "1"), ("parallel:4", "1", "1")]
+    race_runs = [("concurrent:16", "1", "1"), ("parallel:16", "1", "1")]
 def run_harness(params, res):
     args = [exe, "-work", work, "-out", res, "-seed", str(ck.seed), "-repo", REPO] + params
     ck.log("running", " ".join(args[1:]))
@@ -181,7 +185,7 @@ def lab(e):
 
 obs, obs_labels = [], []
 nevents = 0
-MVCAP = 6000 if ck.thorough() else 600     # events of the MethodValue phase kept per build (a prefix of a run is a run)
+MVCAP = 6000 if ck.thorough() else 400     # events of the MethodValue phase kept per build (a prefix of a run is a run)
 for c in cases:
     evs = c.get("Events") or []
     mv = c.get("MVStart") or len(evs)
@@ -255,9 +259,9 @@ else:
         env = dict(GOENV)
         env["GOMAXPROCS"] = scen.split(":")[1]
         env["GORACE"] = "halt_on_error=0 exitcode=66"
-        cargs = [rexe, "-child", scen, "-seed", str(ck.seed + i), "-progs", progs, "-reps", reps, "-modes", "2", "-repo", REPO,
+        cargs = [rexe, "-child", scen, "-seed", str(ck.seed + i), "-progs", progs, "-reps", reps, "-modes", ("2" if ck.thorough() else "1"), "-repo", REPO,
                  "-out", os.path.join(work, "race%d.json" % i)]
-        rc, o = sh(cargs, timeout=3000, env=env)
+        rc, o = sh(cargs, timeout=(1500 if ck.thorough() else 500), env=env)   # a hang is a failure (rc 124)
         nrace = o.count("WARNING: DATA RACE")
         race_log.append({"scenario": scen, "rc": rc, "races": nrace})
         ck.log("race run", scen, "rc", rc, "races", nrace)
@@ -282,7 +286,8 @@ else:
                 pass
 
 # ---------------------------------------------------------------- 5. verdict
-if broken and not [v for v in ck.violations if not v["no_input"]]:
+known = load_known_findings().get("C18", {})
+if broken and not [v for v in ck.violations if not v["no_input"] and v["key"] not in known]:
     ck.violation("obligation:" + broken[0][0][:100],
                  "proof obligation or tie no longer checks: %s; no build among %d (schedules %s) showed a differing dump, an unbuilt or duplicated shared function, a protocol violation or a race"
                  % (broken[0][0], data["Builds"], ",".join(data["Scenarios"])),
